@@ -110,6 +110,9 @@ func c19Case(f []string) (out string) {
 		return c19Show(fr) + " " + c19Sum4(fr)
 	case "udp4":
 		fr := BuildUDPPacket(c19IP(f[1]), c19IP(f[2]), c19U16(f[3]), c19U16(f[4]), c19Hex(f[5]))
+		if fr == nil {
+			return "nil"
+		}
 		return c19Show(fr) + " " + c19Sum4(fr)
 	case "ip6":
 		fr := BuildIPv6UDPFrame(c19IP(f[1]), c19IP(f[2]), c19U16(f[3]), c19U16(f[4]), c19Hex(f[5]))
